@@ -165,13 +165,59 @@ def ensure_makefile():
             raise RuntimeError("coq_makefile failed: " + out)
 
 
-def build(targets: list[str], timeout=1500, clean=False) -> tuple[bool, str]:
-    """make the given .vo targets (paths relative to coq/), full .vo build."""
+def dep_closure(rel: str) -> list[str]:
+    """Transitive `From Cylc Require ...` closure of a theories-relative file
+    (e.g. 'Props/C35.v'), in dependency order."""
+    seen, order = set(), []
+
+    def visit(r):
+        if r in seen:
+            return
+        seen.add(r)
+        f = THEORIES / r
+        if not f.exists():
+            return
+        txt = re.sub(r"\(\*.*?\*\)", " ", f.read_text(), flags=re.S)
+        for m in re.finditer(r"From\s+Cylc\s+Require\s+(?:Import\s+|Export\s+)?(.*?)\.(?=\s|$)", txt, flags=re.S):
+            for mod in m.group(1).split():
+                visit(mod.replace(".", "/") + ".v")
+        for m in re.finditer(r"(?<!Cylc\s)Require\s+(?:Import\s+|Export\s+)?(.*?)\.(?=\s|$)", txt, flags=re.S):
+            for mod in m.group(1).split():
+                if mod.startswith("Cylc."):
+                    visit(mod[len("Cylc."):].replace(".", "/") + ".v")
+        order.append(r)
+
+    visit(rel)
+    return order
+
+
+def build_prop(pid: str, timeout=1500) -> tuple[bool, str]:
+    """Full .vo build of Props/<pid>.v and exactly its dependency closure,
+    with a per-property Makefile so that another property's half-written file
+    cannot break this build."""
+    files = ["theories/" + r for r in dep_closure(f"Props/{pid}.v")]
+    proj = ("-Q theories Cylc\n-arg -w -arg -notation-overridden,-deprecated-hint-without-locality,"
+            "-ambiguous-paths,-deprecated-instance-without-locality\n" + "\n".join(files) + "\n")
+    with BuildLock():
+        pf = COQ / f"_CoqProject.{pid}"
+        mk = COQ / f"Makefile.{pid}"
+        if not pf.exists() or pf.read_text() != proj or not mk.exists():
+            pf.write_text(proj)
+            rc, out = sh(["coq_makefile", "-f", pf.name, "-o", mk.name], cwd=COQ)
+            if rc != 0:
+                return False, "coq_makefile failed: " + out
+        rc, out = sh(["timeout", str(timeout), "make", "-f", mk.name, f"-j{NPROC}",
+                      f"theories/Props/{pid}.vo"], cwd=COQ, timeout=timeout + 30)
+    return rc == 0, out
+
+
+def build(targets: list[str], timeout=3000, clean=False) -> tuple[bool, str]:
+    """make the given .vo targets of the whole project (used by setup)."""
     with BuildLock():
         ensure_makefile()
         if clean:
             sh(["make", "clean"], cwd=COQ, timeout=120)
-        rc, out = sh(["timeout", str(timeout), "make", f"-j{NPROC}", *targets],
+        rc, out = sh(["timeout", str(timeout), "make", "-k", f"-j{NPROC}", *targets],
                      cwd=COQ, timeout=timeout + 30)
     return rc == 0, out
 
@@ -400,7 +446,7 @@ def run_check(pid: str, tier: str, seed: int, replay: str | None = None) -> int:
     # 3. prove
     prop_v = THEORIES / "Props" / f"{pid}.v"
     names = theorem_names(prop_v)
-    ok, out = build([f"theories/Props/{pid}.vo"], clean=False)
+    ok, out = build_prop(pid)
     assum = {}
     discharged = 0
     if not ok:
